@@ -159,11 +159,15 @@ AllZeroAtPixelCentres(r) ==
     CASE r.api = "iterate" -> TableOk(r) /\ \A p \in DOMAIN r.v : r.v[p][1] = 0
       [] r.api = "iterate_fn" -> FnOk(r) /\ LET c0 == Over(r.fn, Centres(Un(r), Geo(r))) IN \A p \in DOMAIN c0 : c0[p] = 0
       [] OTHER -> FALSE
+\* r.hist = number of grids the (shared) over-sampling object of this call had served before (0 = fresh object).  The
+\* clauses above judge every call on its own mask, sub sizes and geometry only: what an over-sampling object returns
+\* for a grid must not depend on its history.
+Reused(r) == IF r.hist > 0 THEN "/shared-object-reused" ELSE ""
 Sig(r) ==
     CASE r.api \in {"iterate", "iterate_fn"} ->
-           IF AllZeroAtPixelCentres(r) THEN "IterateAllZeroAtPixelCentres" ELSE r.api \o "/" \o r.via
+           IF AllZeroAtPixelCentres(r) THEN "IterateAllZeroAtPixelCentres" ELSE r.api \o "/" \o r.via \o Reused(r)
       [] r.api \in {"partition", "bin", "func"} ->
-           r.api \o "/" \o r.via \o (IF Uniform(r.sub) THEN "/uniform-sub" ELSE "/per-pixel-sub")
+           r.api \o "/" \o r.via \o (IF Uniform(r.sub) THEN "/uniform-sub" ELSE "/per-pixel-sub") \o Reused(r)
       [] OTHER -> "unknown-api"
 
 Failed(r) == SelectSeq(Clauses(r), LAMBDA c : ~ c.ok)
